@@ -1089,6 +1089,9 @@ class Model:
         if copy:
             self._nodes, self._vars = deepcopy((self._nodes, self._vars))
 
+            # the model holds copies, the user's nodes must stay as they were
+            self._remove_model_seed_inputs(nodes)
+
         for node in self._nodes.values():
             # _set_model() raises if the node belongs to another model, which must
             # happen before the outputs recorded by that model are cleared
